@@ -54,9 +54,18 @@ class StreamBuffer:
         self._complete = False
         self._is_empty = event_class()
         self._paused = event_class()
+        self._is_ended = event_class()
 
     async def drain(self) -> None:
         await self._is_empty.wait()
+
+    async def wait_ended(self) -> None:
+        # Returns once the end of the stream has been sent (or never
+        # will be, as the buffer has been closed).
+        await self._is_ended.wait()
+
+    async def set_ended(self) -> None:
+        await self._is_ended.set()
 
     def set_complete(self) -> None:
         self._complete = True
@@ -66,6 +75,7 @@ class StreamBuffer:
         self.buffer = bytearray()
         await self._is_empty.set()
         await self._paused.set()
+        await self._is_ended.set()
 
     @property
     def complete(self) -> bool:
@@ -199,6 +209,7 @@ class H2Protocol:
             if self.stream_buffers[stream_id].complete:
                 self.connection.end_stream(stream_id)
                 await self._flush()
+                await self.stream_buffers[stream_id].set_ended()
                 del self.stream_buffers[stream_id]
                 self.priority.remove_stream(stream_id)
         except (h2.exceptions.StreamClosedError, KeyError, h2.exceptions.ProtocolError):
@@ -243,10 +254,13 @@ class H2Protocol:
                 await self.has_data.set()
                 await self.stream_buffers[event.stream_id].push(event.data)
             elif isinstance(event, (EndBody, EndData)):
-                self.stream_buffers[event.stream_id].set_complete()
+                buffer = self.stream_buffers[event.stream_id]
+                buffer.set_complete()
                 self.priority.unblock(event.stream_id)
                 await self.has_data.set()
-                await self.stream_buffers[event.stream_id].drain()
+                # Wait for the end of the stream to have been sent, an
+                # empty buffer may still have its last data in flight.
+                await buffer.wait_ended()
             elif isinstance(event, Trailers):
                 # Trailers end the stream (h2 refuses them otherwise),
                 # so everything buffered for it must be sent first.
